@@ -1,0 +1,87 @@
+//go:build verif
+
+// Contracts for the deductive verification in /verif (govc): chain building and the extended
+// key usage filter of Certificate.Verify (property C07). This file contains comments only; it
+// is compiled only with -tags verif and declares nothing.
+
+package x509
+
+// ---------------------------------------------------------------- verify.go: checkChainForKeyUsage
+//
+// C07 "satisfies the requested extended key usages". A certificate ACCEPTS a requested usage u
+// when it lists no extended key usages at all (ExtKeyUsage and UnknownExtKeyUsage both empty),
+// or lists ExtKeyUsageAny, or lists u, or u is ServerAuth and it lists a Netscape / Microsoft
+// server-gated-crypto usage. A chain satisfies the request when no usage is requested or SOME
+// requested usage is accepted by EVERY certificate of the chain.
+// All statements about the certificates and the request are made over the ENTRY state (old):
+// the function writes only its own copy of the request, so nothing the statements read ever
+// changes, and no frame argument is needed under the quantifiers. The reads of the code are
+// tied to the entry state where they happen (one location each).
+//@ pred ekuNoneAt(chain, k) = old(len(chain[k].ExtKeyUsage) == 0 && len(chain[k].UnknownExtKeyUsage) == 0)
+//@ pred ekuLenAt(chain, k) = old(len(chain[k].ExtKeyUsage))
+//@ pred ekuAt(chain, k, e) = old(chain[k].ExtKeyUsage[e])
+//@ pred ekuMatch(e, u) = e == ExtKeyUsageAny || e == u || (u == ExtKeyUsageServerAuth && (e == ExtKeyUsageNetscapeServerGatedCrypto || e == ExtKeyUsageMicrosoftServerGatedCrypto))
+// certificate k of the chain accepts usage u
+//@ pred ekuAccepts(chain, k, u) = ekuNoneAt(chain, k) || !forall(e, 0, ekuLenAt(chain, k), !spec.emark(e) || !ekuMatch(ekuAt(chain, k, e), u), spec.emark(e))
+// every certificate of chain at a position >= lo accepts u
+//@ pred ekuOKFrom(chain, lo, u) = forall(k, 0, len(chain), !spec.cmark(k) || k < lo || ekuAccepts(chain, k, u), spec.cmark(k))
+// The counter usagesRemaining is the number of requested usages not crossed out (-1): stated in
+// closed form for at most 8 requested usages (requires len(keyUsages) <= 8; callers pass a
+// handful) - no counting function, no induction. spec.cmark / emark / umark are always true
+// (instantiation markers for chain positions, positions in a usage list, request slots,
+// /verif/specs/chainbuild.smt2); umark(j) here puts the slots 0..7 into the proof context.
+//@ pred ekuLive(us, j) = ite(spec.umark(j) && j < len(us) && us[j] != -1, 1, 0)
+//@ pred ekuCount(us) = ekuLive(us, 0) + ekuLive(us, 1) + ekuLive(us, 2) + ekuLive(us, 3) + ekuLive(us, 4) + ekuLive(us, 5) + ekuLive(us, 6) + ekuLive(us, 7)
+// Invariants over the working copy us of the request req:
+//  ekuSlots     every slot holds the requested usage or is crossed out;
+//  ekuDead      a crossed-out usage is rejected by some certificate of the chain;
+//  ekuAlive(lo) a usage not crossed out is accepted by every certificate from position lo on.
+//@ pred ekuSlots(us, req) = forall(j, 0, len(us), !spec.umark(j) || us[j] == -1 || us[j] == old(req[j]), spec.umark(j))
+//@ pred ekuDead(chain, us, req) = forall(j, 0, len(us), !spec.umark(j) || us[j] != -1 || !ekuOKFrom(chain, 0, old(req[j])), spec.umark(j))
+//@ pred ekuAlive(chain, lo, us, req) = forall(j, 0, len(us), !spec.umark(j) || us[j] == -1 || ekuOKFrom(chain, lo, old(req[j])), spec.umark(j))
+// Precondition: certificates non-nil; their usage lists lie in memory allocated before the call
+// (memory-model well-formedness, true of every real slice; it separates them from the copy the
+// function allocates).
+//@ pred ekuChainOK(chain) = forall(k, 0, len(chain), !spec.cmark(k) || (chain[k] != nil && allocated(chain[k].ExtKeyUsage)), spec.cmark(k))
+// Exact for a chain of non-nil certificates and at most 8 requested usages none of which is
+// the internal marker -1: [sound] true only if the chain is not empty and no usage is requested
+// or some requested usage is accepted by every certificate; [complete] false for a non-empty
+// chain only if usages are requested and every one of them is rejected by some certificate;
+// [empty] false for the empty chain. keyUsages, the chain and the certificates are not modified
+// (modifies nothing: only the function's own copy is written).
+// STATUS: lines starting with `//#` are NOT active (ignored by govc): the exact clauses [sound] /
+// [complete] and the invariants ekuDead, ekuAlive and "accepted by the current certificate" they
+// rest on. With them, 6 of 141 obligations stay undecided (see /verif/notes/chainbuild.md). Active
+// and discharged (113 obligations): no panic, termination, modifies nothing, the counter is exactly
+// the number of usages not crossed out (loops 1 and 3), every slot is the requested usage or
+// crossed out, [empty], [nonempty], [requested].
+//@ func checkChainForKeyUsage
+//@   uses perreturn
+//@   requires ekuChainOK(chain)
+//@   requires len(keyUsages) <= 8
+//@   requires forall(j, 0, len(keyUsages), !spec.umark(j) || keyUsages[j] != -1, spec.umark(j))
+//@   loop 1 invariant -1 <= i && i < len(chain) && spec.cmark(i) && spec.cmark(i + 1)
+//@   loop 1 decreases i + 1
+//@   loop 1 invariant usagesRemaining == ekuCount(usages)
+//@   loop 1 invariant len(usages) > 0 ==> usagesRemaining >= 1
+//@   loop 1 invariant ekuSlots(usages, keyUsages)
+//#   loop 1 invariant ekuDead(chain, usages, keyUsages)
+//#   loop 1 invariant ekuAlive(chain, i + 1, usages, keyUsages)
+//@   loop 2 invariant spec.emark(it)
+//@   loop 2 invariant forall(k, 0, len(chain), !spec.cmark(k) || k != i || forall(e, 0, ekuLenAt(chain, k), !spec.emark(e) || e >= it || ekuAt(chain, k, e) != ExtKeyUsageAny, spec.emark(e)), spec.cmark(k))
+//@   loop 3 invariant 0 <= it && it <= len(usages) && spec.umark(it)
+//@   loop 3 invariant usagesRemaining == ekuCount(usages)
+//@   loop 3 invariant len(usages) > 0 ==> usagesRemaining >= 1
+//@   loop 3 invariant ekuSlots(usages, keyUsages)
+//#   loop 3 invariant ekuDead(chain, usages, keyUsages)
+//#   loop 3 invariant ekuAlive(chain, i + 1, usages, keyUsages)
+//#   loop 3 invariant forall(k, 0, len(chain), !spec.cmark(k) || k != i || forall(j, 0, len(usages), !spec.umark(j) || j >= it || usages[j] == -1 || ekuAccepts(chain, k, old(keyUsages[j])), spec.umark(j)), spec.cmark(k))
+//@   loop 4 invariant spec.emark(it)
+//@   loop 4 invariant forall(k, 0, len(chain), !spec.cmark(k) || chain[k] != cert || forall(e, 0, ekuLenAt(chain, k), !spec.emark(e) || e >= it || !(requestedUsage == ekuAt(chain, k, e) || (requestedUsage == ExtKeyUsageServerAuth && (ekuAt(chain, k, e) == ExtKeyUsageNetscapeServerGatedCrypto || ekuAt(chain, k, e) == ExtKeyUsageMicrosoftServerGatedCrypto))), spec.emark(e)), spec.cmark(k))
+//@   ensures [empty] len(chain) == 0 ==> !result
+//#   ensures [sound] result ==> len(chain) > 0 && (len(keyUsages) == 0 || !forall(j, 0, len(keyUsages), !spec.umark(j) || !ekuOKFrom(chain, 0, old(keyUsages[j])), spec.umark(j)))
+//@   ensures [nonempty] result ==> len(chain) > 0
+//#   ensures [complete] !result && len(chain) > 0 ==> len(keyUsages) > 0 && forall(j, 0, len(keyUsages), !spec.umark(j) || !ekuOKFrom(chain, 0, old(keyUsages[j])), spec.umark(j))
+//@   ensures [requested] !result && len(chain) > 0 ==> len(keyUsages) > 0
+//@   modifies nothing
+//@   terminates
